@@ -14,3 +14,5 @@ reg("C12", "exploration", [P("tex", "all")])
 reg("C15", "exploration", [P("solids", "all")])
 reg("C17", "exploration", [P("curve", "spline")])
 reg("C18", "exploration", [P("curve", "angle")])
+reg("C09", "exploration", [P("xform", "algebra")])
+reg("C08", "exploration", [P("xform", "proj")])
